@@ -44,6 +44,16 @@ def c07a(F, R):
              and not (n.get("exp") or "").startswith("Bang:")]
     if not nones:
         raise Anchor("Lexer::next never yields None")
+    lets = {s["pat"]["name"]: s["init"] for s in walk(f["hir"]["value"], pats=False) if s.get("k") == "Let" and s["pat"].get("k") == "PBinding" and s.get("init")}
+
+    def is_current_scrut(e):
+        e = peel(e)
+        if e.get("k") == "MethodCall" and e["name"] == "current":
+            return True
+        if e.get("k") == "Path" and e.get("res_kind") == "Local" and e["res"] in lets:
+            i = peel(lets[e["res"]])
+            return i.get("k") == "Match" and is_current_scrut(i["scrut"])
+        return False
     cnt = 0
     for n in nones:
         # climb to the enclosing arm
@@ -60,9 +70,8 @@ def c07a(F, R):
             x = par
         okk = False
         if arm is not None and match is not None and match.get("k") == "Match":
-            sc = ekey(match["scrut"])
             pv = pat_variants(arm["pat"])
-            if pv == [("path", "core::option::Option::None")] and sc in ("self.current()", "token") and peel(arm["body"]) is n:
+            if pv == [("path", "core::option::Option::None")] and is_current_scrut(match["scrut"]) and peel(arm["body"]) is n:
                 okk = True
         cnt += 1
         if okk:
@@ -77,7 +86,7 @@ SILENT = {"IsNewline", "IgnoredWithoutWarning", "UnexpectedEOF"}
 @rule("C07", "C07.b.parser-arm-discipline", floor=10)
 def c07b(F, R):
     """every LexError arm of parse_from_file pushes a node or a parse error (and then recovers), except the reviewed silent set"""
-    f = fn_by_suffix(F, "parsing::RVParser::<T>::parse_from_file")
+    f = fn_by_suffix(F, "RVParser::<T>::parse_from_file")
     m = None
     for x in find_matches(f["hir"]["value"]):
         vs = [v for a in x["arms"] for k, v in pat_variants(a["pat"]) if k == "path"]
@@ -85,6 +94,10 @@ def c07b(F, R):
             m = x
     if m is None:
         raise Anchor("match over LexError not found in parse_from_file")
+    tail = peel(f["hir"]["value"].get("expr") or {})
+    if tail.get("k") != "Tup" or len(tail["elems"]) != 2:
+        raise Anchor("parse_from_file does not end in a (nodes, errors) tuple")
+    NODES, ERRS = ekey(tail["elems"][0]), ekey(tail["elems"][1])
     seen = set()
     for v, arm in arm_table(m):
         if v == "_":
@@ -99,11 +112,11 @@ def c07b(F, R):
             else:
                 R.ok(f"arm|{v}", detail=f"reviewed silent variant {v}")
             continue
-        if "nodes" in pushes:
+        if NODES in pushes:
             R.ok(f"arm|{v}", detail=f"{v}: pushes node(s)")
-        elif "parse_errors" in pushes and recovers:
+        elif ERRS in pushes and recovers:
             R.ok(f"arm|{v}", detail=f"{v}: pushes a parse error and skips the rest of the line")
-        elif "parse_errors" in pushes:
+        elif ERRS in pushes:
             R.bad(f"arm|{v}", f"arm {v} reports an error but does not call recover_from_parse_error: the rest of the malformed line is parsed as new statements", loc(arm))
         else:
             R.bad(f"arm|{v}", f"arm {v} neither produces a node nor reports an error: the line is dropped silently", loc(arm))
@@ -232,7 +245,7 @@ def c07e(F, R):
 @rule("C15", "C15.a.lexer-stack-pairing", floor=4)
 def c15a(F, R):
     """the include stack is pushed only for the base file and a successfully imported include, popped only at end of file, and an include directive is never also kept as a node"""
-    f = fn_by_suffix(F, "parsing::RVParser::<T>::parse_from_file")
+    f = fn_by_suffix(F, "RVParser::<T>::parse_from_file")
     pm = parent_map(f["hir"]["value"])
     pushes = [n for n in walk(f["hir"]["value"], pats=False) if n.get("k") == "MethodCall" and n["name"] == "push" and ekey(n["recv"]) == "self.lexer_stack"]
     pops = [n for n in walk(f["hir"]["value"], pats=False) if n.get("k") == "MethodCall" and n["name"] in ("pop", "clear", "truncate", "remove") and ekey(n["recv"]) == "self.lexer_stack"]
@@ -305,6 +318,7 @@ def c15b(F, R):
     """every FileReaderError maps to a ParseError that carries the directive's path token, and a failed include is reported and parsing continues"""
     tp = F.method(FRERR, "to_parse_error")
     m = self_match(F, tp, FRERR)
+    PATHP = F.fn(tp)["hir"]["params"][1].get("name")
     seen = set()
     for v, arm in arm_table(m):
         if v == "_":
@@ -312,7 +326,7 @@ def c15b(F, R):
             continue
         seen.add(v)
         built = ctor_names(arm["body"], PARSEERR)
-        uses_path = any(n.get("k") == "Path" and n.get("res") == "path" for n in walk(arm["body"], pats=False))
+        uses_path = any(n.get("k") == "Path" and n.get("res") == PATHP for n in walk(arm["body"], pats=False))
         if len(built) == 1 and uses_path:
             R.ok(f"map|{v}", detail=f"{v} -> ParseError::{built[0]}(path token)")
         else:
@@ -320,7 +334,7 @@ def c15b(F, R):
     for v in F.variants(FRERR):
         if v not in seen:
             R.bad(f"map|{v}|missing", "no arm", loc(m))
-    f = fn_by_suffix(F, "parsing::RVParser::<T>::parse_from_file")
+    f = fn_by_suffix(F, "RVParser::<T>::parse_from_file")
     okk = False
     for mt in find_matches(f["hir"]["value"]):
         if mentions_call(mt["scrut"], "import_file") and any(a.get("k") == "Call" and short(callee_of(a) or "") == "Some" for a in walk(mt["scrut"], pats=False)):
@@ -328,7 +342,9 @@ def c15b(F, R):
                 if pat_variants(a["pat"]) == [("path", "core::result::Result::Err")]:
                     pushes = {ekey(n["recv"]) for n in walk(a["body"], pats=False) if n.get("k") == "MethodCall" and n["name"] == "push"}
                     rets = [n for n in walk(a["body"], pats=False) if n.get("k") in ("Ret", "Break")]
-                    okk = "parse_errors" in pushes and mentions_call(a["body"], "to_parse_error") and not rets
+                    tailt = peel(f["hir"]["value"].get("expr") or {})
+                    errs = ekey(tailt["elems"][1]) if tailt.get("k") == "Tup" and len(tailt["elems"]) == 2 else "?"
+                    okk = errs in pushes and mentions_call(a["body"], "to_parse_error") and not rets
     if okk:
         R.ok("include-error-arm", detail="Err arm of the include import pushes to_parse_error(path) and keeps parsing")
     else:
@@ -483,13 +499,13 @@ def c09b(F, R):
 def c09c(F, R):
     """compact output is 1-based in line and columns, pretty output indexes the file 0-based and prints line+1, JSON is 0-based throughout"""
     acc = lambda f: sorted(n["name"] for n in walk(f["hir"]["value"], pats=False) if n.get("k") == "MethodCall" and re.match(r"(zero|one)_idx_|raw_index", n["name"]))
-    fc = fn_by_suffix(F, "printer::PrettyPrint::format_item_compact")
+    fc = fn_by_suffix(F, "PrettyPrint::format_item_compact")
     a = acc(fc)
     if a == ["one_idx_column", "one_idx_column", "one_idx_line"]:
         R.ok("compact", detail="compact: one_idx_line, one_idx_column x2")
     else:
         R.bad("compact", f"compact output mixes index bases: {a}", fc["sp"])
-    fi = fn_by_suffix(F, "printer::PrettyPrint::format_item")
+    fi = fn_by_suffix(F, "PrettyPrint::format_item")
     a = acc(fi)
     if a == ["zero_idx_column", "zero_idx_column", "zero_idx_line"]:
         R.ok("pretty-accessors", detail="pretty: zero-based line (to index the file) and columns")
@@ -505,7 +521,7 @@ def c09c(F, R):
         R.ok("pretty-line-use", detail="the same 0-based line selects the text and is passed to format_region")
     else:
         R.bad("pretty-line-use", "the line used to fetch the source text is not the one passed to format_region", fi["sp"])
-    fg = fn_by_suffix(F, "printer::PrettyPrint::format_region")
+    fg = fn_by_suffix(F, "PrettyPrint::format_region")
     lp = fg["hir"]["params"][1].get("name")
     plus1 = False
     for s in walk(fg["hir"]["value"], pats=False):
@@ -602,7 +618,7 @@ def pipeline(F, f, inline):
 @rule("C18", "C18.a.pipeline-siblings", floor=3)
 def c18a(F, R):
     """the CLI pipeline and RVParser::run perform the same ordered steps (parse without ignoring imports, convert parse errors, build the CFG, run the lints, convert, sort)"""
-    lib = fn_by_suffix(F, "parsing::RVParser::<T>::run")
+    lib = fn_by_suffix(F, "RVParser::<T>::run")
     cli = F.fn("rva::main")
     a, b = pipeline(F, lib, True), pipeline(F, cli, True)
     # the CLI main has extra branches for other sub-commands: compare the first occurrence of each step
